@@ -1,10 +1,22 @@
 HOOK_COMMITS = ["7de202d", "7f6c320", "bd5f58f", "f5c511f", "6cf08df", "6a57454"]
-FIX_COMMITS = ["7a73b90", "307c7cf", "73e9739", "b6ad768", "06a0422", "37593fd", "b26bda1", "ef4414e", "83534a3", "9d32858", "8df6799", "bfa46be", "d5169bc", "e984a30", "8e975df", "0e9fd95", "93bc5a2", "0df18c2", "dae6c16", "f32a1a0", "6b14b06", "641f662", "5fd891f", "12b678f", "5af4846", "35b9151", "1a0d573", "4dd26bc", "3419442", "a44aef0", "bfa15ff", "db4d047", "05ea952", "1883869", "befdf8c", "bcd23fd", "1927f9b", "ac62d90", "f75f317", "6a8014c", "daaa51f", "ba3fa7b"]
+FIX_COMMITS = ["7a73b90", "307c7cf", "73e9739", "b6ad768", "06a0422", "37593fd", "b26bda1", "ef4414e", "83534a3", "9d32858", "8df6799", "bfa46be", "d5169bc", "e984a30", "8e975df", "0e9fd95", "93bc5a2", "0df18c2", "dae6c16", "f32a1a0", "6b14b06", "641f662", "5fd891f", "12b678f", "5af4846", "35b9151", "1a0d573", "4dd26bc", "3419442", "a44aef0", "bfa15ff", "db4d047", "05ea952", "1883869", "befdf8c", "bcd23fd", "1927f9b", "ac62d90", "f75f317", "6a8014c", "daaa51f", "ba3fa7b", "5bbf9b9", "92b62e9", "81b93bb", "ccfba48", "848110b"]
 
 NOTE_COMMON = ("Trusted: Lean kernel (axioms propext/Classical.choice/Quot.sound only), the hand-written model's "
                "fidelity outside the sampled correspondence, rustc/std and third-party crates as black boxes, the guarded hooks.")
 
 CLAIMS = {
+    "C10": {
+        "level": "Kernel-checked for the modelled functions: reading a field never panics for any cursors, selection and text; drain accepts every range; delete, "
+                 "change and yank never panic for any MotionKind (in range or not), register and register bank; this_line().unwrap() is safe for every cursor inside the "
+                 "text; the argument parser and the key reader are total (their definitions are accepted without `partial`: no hang). Every run is a crash census of the "
+                 "real process over generated command lines (CLI grammar and malformed variants, per-mode key strings and raw fuzz, vic scripts and token-deleted "
+                 "variants) against empty, newline-only, 5000-column, multi-byte, combining, ZWJ, CRLF and NUL texts: any panic, signal, status other than 0/1, silent "
+                 "status 1, invalid UTF-8 or timeout is a violation with the command line as replay.",
+        "note": NOTE_COMMON + " PARTIAL by nature: absence of panics in the unmodelled code (motion engine, ex parser, regex handling, vic evaluator) is only sampled by "
+                "the census, not proved; the process-level properties (signals, UTF-8 validity of stdout, exit status) cannot be expressed in the model at all. Six crash "
+                "classes found by the census were repaired.",
+        "technique": "Lean 4 proof (totality / no-failure theorems for the modelled functions) + process-level crash census with backtrace classification",
+    },
     "C17": {
         "level": "A reference interpreter of the vic core is written in Lean (total, fuel-indexed). Kernel-checked about it: the parser's left fold makes arithmetic "
                  "strictly left to right (value of a chain = left-to-right application of the operators to the operand values, errors included); block scoping for "
